@@ -270,3 +270,25 @@ Theorem C01_all_extension_effect : forall items g pk nd own up,
     end.
 Proof. exact all_extension_effect. Qed.
 Print Assumptions C01_all_extension_effect.
+
+(* Object.lines / Object.source.  The lines of a reported object are the item's text, its source is [dedent] of it
+   (textwrap.dedent for space indentation): for every layout, at any depth. *)
+Theorem C01_object_lines_source : forall items pre post o,
+  In o (occ_list (List.length pre + 1) items) ->
+  object_lines (pre ++ render_list items ++ post) (o_first o) (o_last o) = o_text o /\
+  object_source (pre ++ render_list items ++ post) (o_first o) (o_last o) = dedent (o_text o).
+Proof. exact object_lines_source. Qed.
+Print Assumptions C01_object_lines_source.
+
+(* ... and [dedent] keeps the text, for every list of lines: as many lines; a blank line becomes empty; every other
+   line is [margin] blanks followed by what is kept (nothing but blanks is ever cut off, however little some line of the
+   span is indented: flush-left string content, left-aligned comment, continuation at column 0); unless all lines are
+   blank, some kept line starts at column 0. *)
+Theorem C01_source_dedent_only_blanks : forall ls,
+  List.length (dedent ls) = List.length ls /\
+  (forall i l, nth_error ls i = Some l ->
+     nth_error (dedent ls) i = Some (if is_blank l then EmptyString else drop (margin ls) l) /\
+     (is_blank l = false -> l = String.append (spaces (margin ls)) (drop (margin ls) l))) /\
+  ((exists l, In l ls /\ is_blank l = false) -> exists l, In l ls /\ is_blank l = false /\ indent_of l = margin ls).
+Proof. exact dedent_only_blanks. Qed.
+Print Assumptions C01_source_dedent_only_blanks.
